@@ -2,52 +2,320 @@
   Mirror of `instruction::process` (/repo/src/instruction/mod.rs), arm by arm.  Base opcodes and
   lengths come from Gen.infoTable (extracted by executing `Operation::info`), branch and flag
   numbers from Gen.brNum / Gen.sfNum.
+
+  Structure: `resolve` turns every operand into what the Rust accessors (`get_r8`, `get_expr` +
+  `run`/`get_byte`/`get_bit_index`, `get_index`) would yield; `encodeR` is the `match op` of
+  `process` on resolved operands, each arm = field extraction (the Rust guards and casts)
+  followed by bit packing (the Rust shifts and masks).
 -/
 import Avra.Model.Eval
 import Avra.Gen.Tables
+import Avra.Isa.Surface
 namespace Avra.Model
 open Avra
+open Avra.Isa (AArg AIndex)
 
 def lookupOp {α : Type} (op : Op) : List (Op × α) → Option α
   | [] => none
   | (o, v) :: rest => if o = op then some v else lookupOp op rest
 
+def infoGo (op : Op) (avr8l : Bool) : List (Op × Bool × Nat × Nat) → Option (Nat × Nat)
+  | [] => none
+  | (o, a, l, c) :: rest => if o = op ∧ a = avr8l then some (l, c) else infoGo op avr8l rest
+
 /-- `Operation::info` : (length in words, base opcode) -/
 def info (avr8l : Bool) (op : Op) : Option (Nat × Nat) :=
   match op with
   | .custom _ => some (0, 0)
-  | _ =>
-    let rec go : List (Op × Bool × Nat × Nat) → Option (Nat × Nat)
-      | [] => none
-      | (o, a, l, c) :: rest => if o = op ∧ a = avr8l then some (l, c) else go rest
-    go Gen.infoTable
-
-inductive EncErr
-  | eval (e : EvalErr) | notReg | notExpr | notIndex | regClass | range | arity | form | noInfo
-  deriving Repr, DecidableEq
+  | _ => infoGo op avr8l Gen.infoTable
 
 inductive EncRes
   | ok (bytes : List Nat)
-  | err (e : EncErr)
+  | err
   | oof
   deriving Repr, DecidableEq
 
-/-- `InstructionOps::get_r8` -/
-def getR8 (c : Ctx) : IOp → Except EncErr Nat
-  | .r8 n => .ok n
-  | .e (.ident name) =>
-    match c.getDef name with
-    | some n => .ok n
-    | none => .error .notReg
-  | _ => .error .notReg
+/-- what the accessors of `InstructionOps` yield for an operand: `.reg` when `get_r8` succeeds
+    (a register, or an identifier that is a live `.def` alias), `.val` when it is an expression
+    that evaluates, `.idx` for an index operand (displacement evaluated), `.bad` otherwise.
+    An identifier that is an alias is never also needed as a value by the same mnemonic
+    position, and the other way round (see `encodeR`: each position uses one accessor). -/
+def resolveIndex (c : Ctx) : IndexOps → Option AIndex
+  | .none r => some (.plain r)
+  | .postInc r => some (.postInc r)
+  | .preDec r => some (.preDec r)
+  | .postIncE r e =>
+    match eval c e with
+    | .ok v => some (.disp r (some v))
+    | .err _ => some (.disp r none)
+    | .oof => none
 
-def getExprArg : IOp → Except EncErr Expr
-  | .e e => .ok e
-  | _ => .error .notExpr
+/-- the operand as a register (`get_r8`) -/
+def asReg (c : Ctx) : IOp → Option Nat
+  | .r8 n => some n
+  | .e (.ident name) => c.getDef name
+  | _ => none
 
-def getIndexArg : IOp → Except EncErr IndexOps
-  | .index i => .ok i
-  | _ => .error .notIndex
+/-- the operand as a value (`get_expr` then `run`); `none` = out of fuel -/
+def asVal (c : Ctx) : IOp → Option AArg
+  | .e e =>
+    match eval c e with
+    | .ok v => some (.val v)
+    | .err _ => some .bad
+    | .oof => none
+  | _ => some .bad
+
+/-- the operand as an index (`get_index`) -/
+def asIdx (c : Ctx) : IOp → Option AArg
+  | .index i => (resolveIndex c i).map .idx
+  | _ => some .bad
+
+/-- which accessor `process` applies to operand `i` of `op` -/
+inductive Acc | reg | val | idx
+  deriving DecidableEq, Repr
+
+def accessors : Op → List Acc
+  | .add | .adc | .sub | .sbc | .and | .or | .eor | .cpse | .cp | .cpc | .mov | .mul
+  | .muls | .mulsu | .fmul | .fmuls | .fmulsu | .movw => [.reg, .reg]
+  | .adiw | .sbiw | .subi | .sbci | .andi | .ori | .sbr | .cbr | .cpi | .ldi
+  | .lds | .in | .sbrc | .sbrs | .bst | .bld => [.reg, .val]
+  | .sts | .out => [.val, .reg]
+  | .com | .neg | .inc | .dec | .push | .pop | .lsr | .ror | .asr | .swap
+  | .tst | .clr | .lsl | .rol | .ser => [.reg]
+  | .rjmp | .rcall | .jmp | .call | .bset | .bclr => [.val]
+  | .br .bs | .br .bc => [.val, .val]
+  | .br _ => [.val]
+  | .ld | .ldd | .lpm | .elpm => [.reg, .idx]
+  | .st | .std => [.idx, .reg]
+  | .sbi | .cbi | .sbis | .sbic => [.val, .val]
+  | _ => []
+
+def resolveOne (c : Ctx) (a : Acc) (o : IOp) : Option AArg :=
+  match a with
+  | .reg => some (match asReg c o with | some n => .reg n | none => .bad)
+  | .val => asVal c o
+  | .idx => asIdx c o
+
+/-- resolved operands; `none` = an evaluation ran out of fuel -/
+def resolve (c : Ctx) : List Acc → List IOp → Option (List AArg)
+  | a :: as, o :: os =>
+    match resolveOne c a o, resolve c as os with
+    | some x, some xs => some (x :: xs)
+    | _, _ => none
+  | _, [] => some []
+  | [], _ :: os => (resolve c [] os).map (AArg.bad :: ·)
+
+/-! ### field extraction: the Rust guards and casts -/
+
+/-- `get_byte` (−128..255, `as u8`) -/
+def fByte (v : Int) : Option Nat := if v > 255 ∨ v < -128 then none else some (asU 8 v)
+
+/-- `get_byte(..)? as i8` then `k < 0 || k > hi` -/
+def fSmall (hi : Int) (v : Int) : Option Nat :=
+  match fByte v with
+  | none => none
+  | some b => let k := u8AsI8 b; if k < 0 ∨ k > hi then none else some k.toNat
+
+/-- `get_bit_index` -/
+def fBit (v : Int) : Option Nat := if v < 0 ∨ v > 7 then none else some v.toNat
+
+/-- relative target: `rel = k - (current_address + 1)`, range check, `rel as u16 & mask` -/
+def fRel (lo hi : Int) (mask : Nat) (addr : Nat) (t : Int) : Option Nat :=
+  let rel := t - ((addr : Int) + 1)
+  if rel < lo ∨ rel > hi then none else some (asU 16 rel &&& mask)
+
+/-! ### bit packing: the Rust shifts and masks -/
+
+def packRR (base d r : Nat) : Nat := base ||| (d <<< 4) ||| ((r &&& 0x10) <<< 5) ||| (r &&& 0x0f)
+def packImm (base d k : Nat) : Nat := base ||| ((d &&& 0x0f) <<< 4) ||| ((k &&& 0xf0) <<< 4) ||| (k &&& 0x0f)
+def packAdiw (base d k : Nat) : Nat := base ||| (((d - 24) / 2) <<< 4) ||| ((k &&& 0x30) <<< 2) ||| (k &&& 0x0f)
+def packOne (base r : Nat) : Nat := base ||| (r <<< 4)
+def packSer (base r : Nat) : Nat := base ||| ((r &&& 0x0f) <<< 4)
+def packMuls (base d r : Nat) : Nat := base ||| ((d &&& 0x0f) <<< 4) ||| (r &&& 0x0f)
+def packMulf (base d r : Nat) : Nat := base ||| ((d &&& 0x07) <<< 4) ||| (r &&& 0x07)
+def packJmp1 (base k : Nat) : Nat := base ||| ((k &&& 0x3e0000) >>> 13) ||| ((k &&& 0x010000) >>> 16)
+def packBr (base sbits num relf : Nat) : Nat := base ||| sbits ||| num ||| (relf <<< 3)
+def packMovw (base d r : Nat) : Nat := base ||| ((d / 2) <<< 4) ||| (r / 2)
+def packLds16 (base r k : Nat) : Nat :=
+  base ||| ((r &&& 0x0f) <<< 4) ||| ((k &&& 0x40) <<< 2) ||| ((k &&& 0x30) <<< 5) ||| (k &&& 0x0f)
+def packDisp (k : Nat) : Nat := ((k &&& 0x20) <<< 8) ||| ((k &&& 0x18) <<< 7) ||| (k &&& 0x07)
+def packIo (base r k : Nat) : Nat := base ||| (r <<< 4) ||| ((k &&& 0x30) <<< 5) ||| (k &&& 0x0f)
+
+def regValue : Reg16 → Nat
+  | .x => 0b1100 | .y => 0b1000 | .z => 0b0000
+
+/-- the `match i` of the ld/st arm: index bits, or failure -/
+def indexBits : AIndex → Option Nat
+  | .plain r => some ((if r = .x then 0x1000 else 0) ||| regValue r)
+  | .postInc r => some (0b01 ||| 0x1000 ||| regValue r)
+  | .preDec r => some (0b10 ||| 0x1000 ||| regValue r)
+  | .disp r q =>
+    if r = .x then none else
+    match q with
+    | none => none
+    | some v => (fSmall 63 v).map fun k => regValue r ||| packDisp k
+
+/-! the arms of the `match op` of `process`, one small function per arm -/
+
+abbrev W := Option (Nat × Option Nat)
+
+def eRR (base : Nat) : List AArg → W
+  | [.reg d, .reg r] => some (packRR base d r, none)
+  | _ => none
+
+def eAdiw (base : Nat) : List AArg → W
+  | [.reg d, .val v] =>
+    if !(d == 24 || d == 26 || d == 28 || d == 30) then none else
+    (fSmall 63 v).map fun k => (packAdiw base d k, none)
+  | _ => none
+
+def eImm (base : Nat) (cbr : Bool) : List AArg → W
+  | [.reg d, .val v] =>
+    if d < 16 then none else (fByte v).map fun k => (packImm base d (if cbr then 0xff - k else k), none)
+  | _ => none
+
+def eOne (base : Nat) : List AArg → W
+  | [.reg r] => some (packOne base r, none)
+  | _ => none
+
+def eSame (base : Nat) : List AArg → W
+  | [.reg r] => some (packRR base r r, none)
+  | _ => none
+
+def eSer (base : Nat) : List AArg → W
+  | [.reg r] => if r < 16 then none else some (packSer base r, none)
+  | _ => none
+
+def eMuls (base : Nat) : List AArg → W
+  | [.reg d, .reg r] => if d < 16 ∨ r < 16 then none else some (packMuls base d r, none)
+  | _ => none
+
+def eMulf (base : Nat) : List AArg → W
+  | [.reg d, .reg r] =>
+    if d < 16 ∨ d > 23 ∨ r < 16 ∨ r > 23 then none else some (packMulf base d r, none)
+  | _ => none
+
+def eRel (base addr : Nat) : List AArg → W
+  | [.val t] => (fRel (-2048) 2047 0x0fff addr t).map fun f => (base ||| f, none)
+  | _ => none
+
+def eAbs (base : Nat) : List AArg → W
+  | [.val k] =>
+    if k < 0 ∨ k > 4194303 then none else some (packJmp1 base k.toNat, some (k.toNat &&& 0xffff))
+  | _ => none
+
+def eBrb (base addr : Nat) (num : Option Nat) : List AArg → W
+  | [.val s, .val t] =>
+    match fBit s, num, fRel (-64) 63 0x7f addr t with
+    | some sb, some num, some f => some (packBr base sb num f, none)
+    | _, _, _ => none
+  | _ => none
+
+def eBr (base addr : Nat) (num : Option Nat) : List AArg → W
+  | [.val t] =>
+    match num, fRel (-64) 63 0x7f addr t with
+    | some num, some f => some (packBr base 0 num f, none)
+    | _, _ => none
+  | _ => none
+
+def eMovw (base : Nat) : List AArg → W
+  | [.reg d, .reg r] => if d % 2 ≠ 0 ∨ r % 2 ≠ 0 then none else some (packMovw base d r, none)
+  | _ => none
+
+def eDirect (avr8l : Bool) (base r : Nat) (k : Int) : W :=
+  if avr8l then
+    if r < 16 then none else
+    if k < 0x40 ∨ k > 0xbf then none else some (packLds16 base r k.toNat, none)
+  else
+    if k < 0 ∨ k > 65535 then none else some (packOne base r, some (k.toNat &&& 0xffff))
+
+def eLds (avr8l : Bool) (base : Nat) : List AArg → W
+  | [.reg r, .val k] => eDirect avr8l base r k
+  | _ => none
+
+def eSts (avr8l : Bool) (base : Nat) : List AArg → W
+  | [.val k, .reg r] => eDirect avr8l base r k
+  | _ => none
+
+def eLd (base : Nat) : List AArg → W
+  | [.reg r, .idx i] => (indexBits i).map fun b => (packOne base r ||| b, none)
+  | _ => none
+
+def eSt (base : Nat) : List AArg → W
+  | [.idx i, .reg r] => (indexBits i).map fun b => (packOne base r ||| b, none)
+  | _ => none
+
+def eLpm (base : Nat) (elpm : Bool) : List AArg → W
+  | [] => some (if elpm then 0x95d8 else 0x95c8, none)
+  | [.reg r, .idx i] =>
+    let bits : Option Nat := match i with
+      | .plain .z => some 0b100
+      | .postInc .z => some 0b101
+      | _ => none
+    bits.map fun b => (packOne base r ||| b ||| (if elpm then 0b10 else 0), none)
+  | _ => none
+
+def eIn (base : Nat) : List AArg → W
+  | [.reg r, .val v] => (fSmall 63 v).map fun k => (packIo base r k, none)
+  | _ => none
+
+def eOut (base : Nat) : List AArg → W
+  | [.val v, .reg r] => (fSmall 63 v).map fun k => (packIo base r k, none)
+  | _ => none
+
+def eRegBit (base : Nat) : List AArg → W
+  | [.reg r, .val v] => (fBit v).map fun b => (packOne base r ||| b, none)
+  | _ => none
+
+def eIoBit (base : Nat) : List AArg → W
+  | [.val a, .val b] =>
+    match fSmall 31 a, fBit b with
+    | some k, some bb => some (base ||| (k <<< 3) ||| bb, none)
+    | _, _ => none
+  | _ => none
+
+def eFlagV (base : Nat) : List AArg → W
+  | [.val v] => (fBit v).map fun k => (base ||| (k <<< 4), none)
+  | _ => none
+
+def eFlag (base : Nat) (num : Option Nat) : List AArg → W
+  | [] => num.map fun k => (base ||| (k <<< 4), none)
+  | _ => none
+
+def eNone (base : Nat) : List AArg → W
+  | [] => some (base, none)
+  | _ => none
+
+/-- first word and optional second word; `none` = `bail!` -/
+def encodeR (avr8l : Bool) (op : Op) (args : List AArg) (addr : Nat) (base : Nat) : W :=
+  match op with
+  | .add | .adc | .sub | .sbc | .and | .or | .eor | .cpse | .cp | .cpc | .mov | .mul => eRR base args
+  | .adiw | .sbiw => eAdiw base args
+  | .subi | .sbci | .andi | .ori | .sbr | .cpi | .ldi => eImm base false args
+  | .cbr => eImm base true args
+  | .com | .neg | .inc | .dec | .push | .pop | .lsr | .ror | .asr | .swap => eOne base args
+  | .tst | .clr | .lsl | .rol => eSame base args
+  | .ser => eSer base args
+  | .muls => eMuls base args
+  | .mulsu | .fmul | .fmuls | .fmulsu => eMulf base args
+  | .rjmp | .rcall => eRel base addr args
+  | .jmp | .call => eAbs base args
+  | .br .bs | .br .bc => eBrb base addr (lookupOp op Gen.brNum) args
+  | .br _ => eBr base addr (lookupOp op Gen.brNum) args
+  | .movw => eMovw base args
+  | .lds => eLds avr8l base args
+  | .sts => eSts avr8l base args
+  | .ld | .ldd => eLd base args
+  | .st | .std => eSt base args
+  | .lpm => eLpm base false args
+  | .elpm => eLpm base true args
+  | .in => eIn base args
+  | .out => eOut base args
+  | .sbrc | .sbrs | .bst | .bld => eRegBit base args
+  | .sbi | .cbi | .sbis | .sbic => eIoBit base args
+  | .bset | .bclr => eFlagV base args
+  | .se _ | .cl _ => eFlag base (lookupOp op Gen.sfNum) args
+  | _ => eNone base args
 
 /-- allowed operand counts (the arity table at the top of `process`) -/
 def allowedArgs : Op → List Nat
@@ -61,197 +329,21 @@ def allowedArgs : Op → List Nat
   | .lpm | .elpm => [0, 2]
   | _ => [0]
 
-/-- evaluation lifted into the encoder's error type -/
-def evalE (c : Ctx) (e : Expr) : Except (Option EncErr) Int :=
-  match eval c e with
-  | .ok v => .ok v
-  | .err x => .error (some (.eval x))
-  | .oof => .error none
-
-def byteE (c : Ctx) (e : Expr) : Except (Option EncErr) Nat :=
-  match getByte c e with
-  | .ok v => .ok v.toNat
-  | .err x => .error (some (.eval x))
-  | .oof => .error none
-
-def bitE (c : Ctx) (e : Expr) : Except (Option EncErr) Nat :=
-  match getBitIndex c e with
-  | .ok v => .ok v.toNat
-  | .err x => .error (some (.eval x))
-  | .oof => .error none
-
-def liftE {α : Type} (x : Except EncErr α) : Except (Option EncErr) α :=
-  match x with
-  | .ok v => .ok v
-  | .error e => .error (some e)
-
-def failE {α : Type} (e : EncErr) : Except (Option EncErr) α := .error (some e)
-
-def arg (args : List IOp) (i : Nat) : IOp := args.getD i (.r8 0)
-
-def regValue : Reg16 → Nat
-  | .x => 0b1100 | .y => 0b1000 | .z => 0b0000
-
-/-- the opcode word(s): (first word, optional second word) -/
-def encodeWords (c : Ctx) (op : Op) (args : List IOp) (addr : Nat) (base : Nat) :
-    Except (Option EncErr) (Nat × Option Nat) := do
-  let a0 := arg args 0
-  let a1 := arg args 1
-  match op with
-  | .add | .adc | .sub | .sbc | .and | .or | .eor | .cpse | .cp | .cpc | .mov | .mul =>
-    let d ← liftE (getR8 c a0)
-    let r ← liftE (getR8 c a1)
-    pure (base ||| (d <<< 4) ||| ((r &&& 0x10) <<< 5) ||| (r &&& 0x0f), none)
-  | .adiw | .sbiw =>
-    let d ← liftE (getR8 c a0)
-    if !(d == 24 || d == 26 || d == 28 || d == 30) then failE .regClass else
-    let ke ← liftE (getExprArg a1)
-    let kb ← byteE c ke
-    let k := u8AsI8 kb
-    if k < 0 ∨ k > 63 then failE .range else
-    let k := k.toNat
-    pure (base ||| (((d - 24) / 2) <<< 4) ||| ((k &&& 0x30) <<< 2) ||| (k &&& 0x0f), none)
-  | .subi | .sbci | .andi | .ori | .sbr | .cbr | .cpi | .ldi =>
-    let d ← liftE (getR8 c a0)
-    if d < 16 then failE .regClass else
-    let ke ← liftE (getExprArg a1)
-    let kb ← byteE c ke
-    let k := if op = .cbr then 0xff - kb else kb
-    pure (base ||| ((d &&& 0x0f) <<< 4) ||| ((k &&& 0xf0) <<< 4) ||| (k &&& 0x0f), none)
-  | .com | .neg | .inc | .dec | .push | .pop | .lsr | .ror | .asr | .swap =>
-    let r ← liftE (getR8 c a0)
-    pure (base ||| (r <<< 4), none)
-  | .tst | .clr | .lsl | .rol =>
-    let r ← liftE (getR8 c a0)
-    pure (base ||| (r <<< 4) ||| ((r &&& 0x10) <<< 5) ||| (r &&& 0x0f), none)
-  | .ser =>
-    let r ← liftE (getR8 c a0)
-    if r < 16 then failE .regClass else
-    pure (base ||| ((r &&& 0x0f) <<< 4), none)
-  | .muls =>
-    let d ← liftE (getR8 c a0)
-    if d < 16 then failE .regClass else
-    let r ← liftE (getR8 c a1)
-    if r < 16 then failE .regClass else
-    pure (base ||| ((d &&& 0x0f) <<< 4) ||| (r &&& 0x0f), none)
-  | .mulsu | .fmul | .fmuls | .fmulsu =>
-    let d ← liftE (getR8 c a0)
-    if d < 16 ∨ d > 23 then failE .regClass else
-    let r ← liftE (getR8 c a1)
-    if r < 16 ∨ r > 23 then failE .regClass else
-    pure (base ||| ((d &&& 0x07) <<< 4) ||| (r &&& 0x07), none)
-  | .rjmp | .rcall =>
-    let ke ← liftE (getExprArg a0)
-    let k ← evalE c ke
-    let rel := k - ((addr : Int) + 1)
-    if rel < -2048 ∨ rel > 2047 then failE .range else
-    pure (base ||| (asU 16 rel &&& 0x0fff), none)
-  | .jmp | .call =>
-    let ke ← liftE (getExprArg a0)
-    let k ← evalE c ke
-    if k < 0 ∨ k > 4194303 then failE .range else
-    let k := k.toNat
-    pure (base ||| ((k &&& 0x3e0000) >>> 13) ||| ((k &&& 0x010000) >>> 16), some (k &&& 0xffff))
-  | .br s =>
-    let two := (s = .bs ∨ s = .bc)
-    let sbits ← (if two then do
-        let se ← liftE (getExprArg a0)
-        bitE c se
-      else pure 0)
-    let num ← (match lookupOp (.br s) Gen.brNum with
-      | some n => pure n
-      | none => failE .noInfo)
-    let ke ← liftE (getExprArg (if two then a1 else a0))
-    let k ← evalE c ke
-    let rel := k - ((addr : Int) + 1)
-    if rel < -64 ∨ rel > 63 then failE .range else
-    pure (base ||| sbits ||| num ||| ((asU 16 rel &&& 0x7f) <<< 3), none)
-  | .movw =>
-    let d ← liftE (getR8 c a0)
-    if d % 2 ≠ 0 then failE .regClass else
-    let r ← liftE (getR8 c a1)
-    if r % 2 ≠ 0 then failE .regClass else
-    pure (base ||| ((d / 2) <<< 4) ||| (r / 2), none)
-  | .lds | .sts =>
-    let r ← liftE (getR8 c (if op = .lds then a0 else a1))
-    let ke ← liftE (getExprArg (if op = .lds then a1 else a0))
-    let k ← evalE c ke
-    if c.device.isAvr8l then
-      if r < 16 then failE .regClass else
-      if k < 0x40 ∨ k > 0xbf then failE .range else
-      let k := k.toNat
-      pure (base ||| ((r &&& 0x0f) <<< 4) ||| ((k &&& 0x40) <<< 2) ||| ((k &&& 0x30) <<< 5) ||| (k &&& 0x0f), none)
-    else
-      if k < 0 ∨ k > 65535 then failE .range else
-      pure (base ||| (r <<< 4), some (k.toNat &&& 0xffff))
-  | .ld | .st | .ldd | .std =>
-    let isLoad := (op = .ld ∨ op = .ldd)
-    let r ← liftE (getR8 c (if isLoad then a0 else a1))
-    let i ← liftE (getIndexArg (if isLoad then a1 else a0))
-    let bits ← (match i with
-      | .none r16 => pure ((if r16 = .x then 0x1000 else 0) ||| regValue r16)
-      | .postInc r16 => pure (0b01 ||| 0x1000 ||| regValue r16)
-      | .preDec r16 => pure (0b10 ||| 0x1000 ||| regValue r16)
-      | .postIncE r16 e => do
-        if r16 = .x then failE .form else
-        let kb ← byteE c e
-        let k := u8AsI8 kb
-        if k < 0 ∨ k > 63 then failE .range else
-        let k := k.toNat
-        pure (regValue r16 ||| ((k &&& 0x20) <<< 8) ||| ((k &&& 0x18) <<< 7) ||| (k &&& 0x07)))
-    pure (base ||| (r <<< 4) ||| bits, none)
-  | .lpm | .elpm =>
-    if args.length = 0 then
-      pure (if op = .lpm then 0x95c8 else 0x95d8, none)
-    else
-      let r ← liftE (getR8 c a0)
-      let i ← liftE (getIndexArg a1)
-      let bits ← (match i with
-        | .none .z => pure 0b100
-        | .postInc .z => pure 0b101
-        | _ => failE .form)
-      pure (base ||| (r <<< 4) ||| bits ||| (if op = .elpm then 0b10 else 0), none)
-  | .in | .out =>
-    let r ← liftE (getR8 c (if op = .in then a0 else a1))
-    let ke ← liftE (getExprArg (if op = .in then a1 else a0))
-    let kb ← byteE c ke
-    let k := u8AsI8 kb
-    if k < 0 ∨ k > 63 then failE .range else
-    let k := k.toNat
-    pure (base ||| (r <<< 4) ||| ((k &&& 0x30) <<< 5) ||| (k &&& 0x0f), none)
-  | .sbrc | .sbrs | .bst | .bld =>
-    let r ← liftE (getR8 c a0)
-    let be ← liftE (getExprArg a1)
-    let b ← bitE c be
-    pure (base ||| (r <<< 4) ||| b, none)
-  | .sbi | .cbi | .sbis | .sbic =>
-    let ke ← liftE (getExprArg a0)
-    let kb ← byteE c ke
-    let k := u8AsI8 kb
-    if k < 0 ∨ k > 31 then failE .range else
-    let be ← liftE (getExprArg a1)
-    let b ← bitE c be
-    pure (base ||| (k.toNat <<< 3) ||| b, none)
-  | .bset | .bclr =>
-    let ke ← liftE (getExprArg a0)
-    let k ← bitE c ke
-    pure (base ||| (k <<< 4), none)
-  | .se f | .cl f =>
-    match lookupOp op Gen.sfNum with
-    | some k => pure (base ||| (k <<< 4), none)
-    | none => let _ := f; failE .noInfo
-  | _ => pure (base, none)
+def wordsBytes : Nat × Option Nat → List Nat
+  | (w, none) => leBytes 2 w
+  | (w, some w2) => leBytes 2 w ++ leBytes 2 w2
 
 /-- `instruction::process` : bytes, little-endian, one or two words -/
 def process (c : Ctx) (op : Op) (args : List IOp) (addr : Nat) : EncRes :=
-  if !(allowedArgs op).contains args.length then .err .arity else
+  if !(allowedArgs op).contains args.length then .err else
   match info c.device.isAvr8l op with
-  | none => .err .noInfo
+  | none => .err
   | some (_, base) =>
-    match encodeWords c op args addr base with
-    | .ok (w, none) => .ok (leBytes 2 w)
-    | .ok (w, some w2) => .ok (leBytes 2 w ++ leBytes 2 w2)
-    | .error (some e) => .err e
-    | .error none => .oof
+    match resolve c (accessors op) args with
+    | none => .oof
+    | some rargs =>
+      match encodeR c.device.isAvr8l op rargs addr base with
+      | some ws => .ok (wordsBytes ws)
+      | none => .err
 
 end Avra.Model
